@@ -399,6 +399,61 @@ def _vector_spin_stream(ctx, n, nprng):
                         break
 
 
+def _ctor_options_stream(ctx, n, nprng):
+    """constructor options on NON-PRIMITIVE input cells (integer supercells, |det| 2..4, atoms shuffled): NOSYM x noreduce.
+    Every oracle on G is applied to the FINAL crystal: each op a self-isometry whose index map is a permutation of exactly
+    the atoms of the final basis; NOSYM => G is exactly {identity} with the identity map of the final basis; closure
+    whenever the final cell is primitive."""
+    rng = ctx.rng
+    pool = [x for x in X.zoo() if x.N <= 4]
+    for k in range(n):
+        xc = pool[k % len(pool)] if k < len(pool) else X.random_xc(rng, nprng, maxatoms=3, redescribe=0.0)
+        d = xc.d
+        det = rng.choice((2, 2, 3, 4))
+        S = [[int(i == j) for j in range(d)] for i in range(d)]
+        ax = rng.randrange(d); S[ax][ax] = det
+        if rng.random() < 0.5:
+            U = X.rand_unimodular(rng, d, steps=1, big=1)
+            S = [[sum(S[i][l] * U[l][j] for l in range(d)) for j in range(d)] for i in range(d)]
+        xs = xc.transformed(S)
+        if xs.N > 16: continue
+        flags = dict(NOSYM=(k % 2 == 0), noreduce=(k % 4 >= 2))
+        ctx.count('ctor-options:NOSYM=%d,noreduce=%d' % (flags['NOSYM'], flags['noreduce']))
+        ctx.case(('ctor', xs.key(), str(flags)), nontrivial=True)
+        rp = _replay(xs, flags, dict(base=xc.name, supercell_matrix=S))
+        try:
+            crys = X.build(xs, **flags)
+        except (ArithmeticError, RecursionError) as e:
+            ctx.count('ctor:%s(reduce/minlattice; C19)' % type(e).__name__); continue
+        except Exception as e:
+            ctx.violation('ctor-options:raises:%s' % type(e).__name__, 'Crystal(non-primitive cell of %s, %s) raises %r' % (xc.name, flags, e), rp)
+            continue
+        G = list(crys.G)
+        rp.update(final_shape=[len(a) for a in crys.basis], nops=len(G), indexmaps=[list(map(list, g.indexmap)) for g in G[:2]])
+        bad = X.oracle_ops(crys)
+        try:
+            primitive_now = (crys.N == X.build(xc, NOSYM=True).N)
+        except Exception:
+            primitive_now = False
+        if primitive_now and not flags['NOSYM']: bad += X.oracle_group(crys)
+        for sig, what in bad[:2]:
+            ctx.violation('ctor-options:' + sig, '%s (input: supercell of %s): %s' % (flags, xc.name, what), rp)
+        if flags['NOSYM']:
+            ident_map = tuple(tuple(range(len(a))) for a in crys.basis)
+            ok = (len(G) == 1 and np.array_equal(G[0].rot, np.eye(d, dtype=int)) and np.allclose(G[0].trans, 0)
+                  and tuple(tuple(l) for l in G[0].indexmap) == ident_map)
+            if not ok:
+                ctx.violation('ctor-options:nosym-not-identity', 'NOSYM=True on a supercell of %s (noreduce=%s): G is not {identity of the final basis}: '
+                              '%d operation(s), index map %s, final basis has %s atoms per species'
+                              % (xc.name, flags['noreduce'], len(G), [list(l) for l in G[0].indexmap] if G else None, [len(a) for a in crys.basis]), rp)
+        # the derived tables must be usable
+        try:
+            if [len(r) for r in crys.pointG] != [len(a) for a in crys.basis] or set(k2 for w in crys.Wyckoff for k2 in w) != set(crys.atomindices):
+                ctx.violation('ctor-options:derived-tables', 'pointG / Wyckoff do not cover the atoms of the final basis', rp)
+        except Exception as e:
+            ctx.violation('ctor-options:derived-tables-raise', 'pointG/Wyckoff inspection raises %r' % (e,), rp)
+
+
 def _noreduce_stream(ctx, n, nprng):
     """noreduce=True on deliberately non-reduced cell descriptions (float oracles)"""
     rng = ctx.rng
@@ -450,6 +505,7 @@ def run(ctx):
     _evaluate(ctx, lines, pending, answers)
     _noise_stream(ctx, 12 if ctx.quick else 150, nprng)
     _vector_spin_stream(ctx, 40 if ctx.quick else 600, nprng)
+    _ctor_options_stream(ctx, 48 if ctx.quick else 600, nprng)
 
 
 def search(ctx, reasons):
